@@ -222,11 +222,11 @@ func runShards(w *Work, node string, batch *proto.Batch, out *Outcome, timeout t
 			if res[s].cur >= 0 {
 				_, stderr2, err2 := runNode(node, []string{"-batch", batchFile, "-from", strconv.Itoa(res[s].cur), "-to", strconv.Itoa(res[s].cur + 1)}, timeout)
 				if err2 != nil {
-					rp := &proto.Replay{Format: "verif-replay/1", Property: batch.Property, Seed: batch.Seed, Run: res[s].cur,
+					rp := &proto.Replay{Format: "verif-replay/1", Property: batch.Property, Seed: batch.Seed, Run: res[s].cur, Params: batch.Params,
 						Scenario:  proto.Scenario{Kind: "rerun"},
 						Violation: proto.Violation{Property: batch.Property, Class: "process-crash", Signature: "process-crash|" + crashLine(stderr2), Detail: clipS(stderr2, 1500)}}
 					for _, p := range batch.Programs {
-						rp.Programs = append(rp.Programs, proto.ReplayProg{ID: p.ID, Bop: p.Bop, Schema: p.Schema, Old: p.Old, OldBop: p.OldBop})
+						rp.Programs = append(rp.Programs, proto.ReplayProg{ID: p.ID, Bop: p.Bop, Schema: p.Schema, Old: p.Old, OldBop: p.OldBop, Masks: p.Masks})
 					}
 					out.Violations = append(out.Violations, rp)
 					continue
